@@ -140,6 +140,17 @@ def frame_obligations():
                 for t in n.targets:
                     if isinstance(t, ast.Name):
                         module_sets.add(t.id)
+        class_state = {}
+        for c in ast.walk(tree):
+            if isinstance(c, ast.ClassDef):
+                for st in c.body:
+                    val = st.value if isinstance(st, (ast.Assign, ast.AnnAssign)) else None
+                    mutable = isinstance(val, (ast.Dict, ast.List, ast.Set, ast.DictComp, ast.ListComp, ast.SetComp)) or (
+                        isinstance(val, ast.Call) and isinstance(val.func, ast.Name) and val.func.id in ("dict", "list", "set", "defaultdict", "OrderedDict", "deque", "Counter"))
+                    if mutable:
+                        for t in (st.targets if isinstance(st, ast.Assign) else [st.target]):
+                            if isinstance(t, ast.Name):
+                                class_state.setdefault(c.name, {})[t.id] = st.lineno
         for q, fn in _functions(tree):
             where = f"{mname}.{q}"
             local = _local_names(fn)
@@ -185,6 +196,22 @@ def frame_obligations():
                     if not ok and key in ALLOWED_SET_SINKS:
                         ok, why = True, "allowed sink: " + ALLOWED_SET_SINKS[key]
                     out.append(Obl("set-order-insensitive", where, n.lineno, ok, f"`{desc}` {why}"))
+            # (f) mutable objects created in a class body are shared by every instance (and every document converted in the process):
+            # writing INTO them through self / cls / the class name carries state from one conversion to the next
+            owner = q.split(".")[0] if "." in q else None
+            shared = class_state.get(owner, {}) if owner else {}
+            for n in ast.walk(fn):
+                tgt = None
+                if isinstance(n, (ast.Assign, ast.AugAssign, ast.Delete)):
+                    for t in (n.targets if isinstance(n, (ast.Assign, ast.Delete)) else [n.target]):
+                        if isinstance(t, ast.Subscript):
+                            tgt = t.value
+                elif isinstance(n, ast.Call) and isinstance(n.func, ast.Attribute) and n.func.attr in _MUTATORS:
+                    tgt = n.func.value
+                while isinstance(tgt, ast.Subscript):
+                    tgt = tgt.value
+                if isinstance(tgt, ast.Attribute) and isinstance(tgt.value, ast.Name) and tgt.value.id in ("self", "cls", owner) and tgt.attr in shared:
+                    out.append(Obl("no-class-state-write", where, n.lineno, False, f"writes into `{owner}.{tgt.attr}`, a mutable object created once in the class body (line {shared[tgt.attr]}) and shared by all instances"))
             # (e) mutable default arguments that are mutated = state shared between calls
             defaults = list(fn.args.defaults) + [d for d in fn.args.kw_defaults if d is not None]
             params = [a.arg for a in (fn.args.posonlyargs + fn.args.args)][-len(fn.args.defaults):] if fn.args.defaults else []
